@@ -9,17 +9,19 @@ import Sml.Lemmas.RdrFaults
       `WouldBlock` (the line is idle) — the reader returns `IoErr(WouldBlock, 0)` forever, never
       `None` and never an `Eof` error, and the decoder keeps its state;
     * there is no retry: an `Interrupted` event is an error like `other` (it resets the decoder and
-      is returned as `IoErr(Other, n)`).
+      is returned as `IoErr(Other, n)`);
+    * embedded-hal has no notion of end of input: the event `Ev.eof` (which cannot occur on a real
+      serial line) is treated as an error like `other` as well.
 
   The complete behaviour (§0):
       `opsOfEh evs`   the decoder operations the events cause: `byte b ↦ push_byte b`,
-                       `other`, `interrupted ↦ reset`, `wouldBlock ↦` nothing;
+                       `other`, `interrupted`, `eof ↦ reset`, `wouldBlock ↦` nothing;
       `bodyEh d evs`  the results produced while events are left: per byte the non-`None` answer
                        of `push_byte`, per `wouldBlock` one `IoErr(WouldBlock, 0)`, per `other` /
-                       `interrupted` one `IoErr(Other, reset())`;
+                       `interrupted` / `eof` one `IoErr(Other, reset())`;
       `calls_eq_eh` : any interleaving of `read` / `next` / `read_nb` / `next_nb`: the `i`-th call
       returns `view c` of the `i`-th element of `bodyEh`, resp. of `IoErr(WouldBlock, 0)` afterwards.
-  `bodyEh d evs = RF.body d (toIo evs)` where `toIo` replaces `interrupted` by `other`
+  `bodyEh d evs = RF.body d (toIo evs)` where `toIo` replaces `interrupted` and `eof` by `other`
   (`bodyEh_eq`), so the lemmas of Sml/Lemmas/RdrFaults.lean about `RF.body` carry over.
 
   All theorems hold for all event lists, all decoder states / buffer capacities and all numbers of
@@ -39,6 +41,7 @@ def toIo : List Ev → List Ev
   | .wouldBlock :: evs => .wouldBlock :: toIo evs
   | .interrupted :: evs => .other :: toIo evs
   | .other :: evs => .other :: toIo evs
+  | .eof :: evs => .other :: toIo evs
 
 /-- the decoder operations an event sequence causes (`SrcKind.eh`) -/
 def opsOfEh : List Ev → List Op
@@ -47,6 +50,7 @@ def opsOfEh : List Ev → List Op
   | .wouldBlock :: evs => opsOfEh evs
   | .interrupted :: evs => .reset :: opsOfEh evs
   | .other :: evs => .reset :: opsOfEh evs
+  | .eof :: evs => .reset :: opsOfEh evs
 
 /-- the results produced while events are left (`SrcKind.eh`) -/
 def bodyEh (d : Dec) : List Ev → List RItem
@@ -55,6 +59,7 @@ def bodyEh (d : Dec) : List Ev → List RItem
   | .wouldBlock :: evs => .ioErr .wouldBlock 0 :: bodyEh d evs
   | .interrupted :: evs => .ioErr .other d.reset.2 :: bodyEh d.reset.1 evs
   | .other :: evs => .ioErr .other d.reset.2 :: bodyEh d.reset.1 evs
+  | .eof :: evs => .ioErr .other d.reset.2 :: bodyEh d.reset.1 evs
 
 /-- remove the `WouldBlock` events (only these: `Interrupted` is an error here) -/
 def stripWB : List Ev → List Ev
@@ -63,6 +68,7 @@ def stripWB : List Ev → List Ev
   | .wouldBlock :: evs => stripWB evs
   | .interrupted :: evs => .interrupted :: stripWB evs
   | .other :: evs => .other :: stripWB evs
+  | .eof :: evs => .eof :: stripWB evs
 
 /-- what `reset` returns in the decoder state reached when `evs` is used up (new reader) -/
 def pendingEh (cap : Option Nat) (evs : List Ev) : Nat :=
@@ -88,6 +94,12 @@ theorem bytesOf_toIo (evs : List Ev) : bytesOf (toIo evs) = bytesOf evs := by
   induction evs with
   | nil => rfl
   | cons e evs ih => cases e <;> simp [toIo, bytesOf, ih]
+
+/-- the translated list has no end-of-input event -/
+theorem eof_not_mem_toIo (evs : List Ev) : Ev.eof ∉ toIo evs := by
+  induction evs with
+  | nil => simp [toIo]
+  | cons e evs ih => cases e <;> simp [toIo, ih]
 
 theorem toIo_append (e1 e2 : List Ev) : toIo (e1 ++ e2) = toIo e1 ++ toIo e2 := by
   induction e1 with
@@ -119,7 +131,8 @@ theorem bodyEh_mem (d : Dec) (evs : List Ev) (x : RItem) (hx : x ∈ bodyEh d ev
     x ≠ .none ∧ x ≠ .nbWouldBlock ∧ (∀ n, x ≠ .ioErr .eof n) ∧
       ∀ n, x = .ioErr .wouldBlock n → n = 0 := by
   rw [bodyEh_eq] at hx
-  exact RF.body_mem _ d x hx
+  have := RF.body_mem _ d x hx
+  exact ⟨this.1, this.2.1, this.2.2.1 (eof_not_mem_toIo evs), this.2.2.2⟩
 
 theorem bodyEh_length_le (d : Dec) (evs : List Ev) : (bodyEh d evs).length ≤ evs.length := by
   have h : ∀ evs : List Ev, (toIo evs).length = evs.length := by
@@ -258,6 +271,11 @@ theorem calls_eq_eh_from (evs : List Ev) : ∀ (d : Dec) (cs : List Call),
         simp only
         rw [ih]
         simp only [bodyEh, List.length_cons, padTo_cons, List.zipWith_cons_cons]
+      | eof =>
+        rw [calls_cons, RF.call_eq_read, RF.read_eof_eh]
+        simp only
+        rw [ih]
+        simp only [bodyEh, List.length_cons, padTo_cons, List.zipWith_cons_cons]
 
 /-- a new reader -/
 theorem calls_eq_eh (cap : Option Nat) (evs : List Ev) (cs : List Call) :
@@ -267,7 +285,7 @@ theorem calls_eq_eh (cap : Option Nat) (evs : List Ev) (cs : List Call) :
 
 theorem map_view_next_bodyEh (d : Dec) (evs : List Ev) :
     (bodyEh d evs).map (view .next) = bodyEh d evs := by
-  rw [bodyEh_eq]; exact RF.map_view_next_body d _
+  rw [bodyEh_eq]; exact RF.map_view_next_body d _ (eof_not_mem_toIo evs)
 
 theorem map_view_nextNb_bodyEh (d : Dec) (evs : List Ev) :
     (bodyEh d evs).map (view .nextNb) = (bodyEh d evs).map toNb := by
@@ -420,6 +438,7 @@ theorem readLoop_quiet_eh (pre : List Ev) : ∀ (d : Dec) (rest : List Ev), body
     | wouldBlock => simp [bodyEh] at hq
     | interrupted => simp [bodyEh] at hq
     | other => simp [bodyEh] at hq
+    | eof => simp [bodyEh] at hq
 
 /-- One `read` call that runs into a would-block after the events `pre` (bytes answered `Ok(None)`):
 the would-block is returned with count 0, the decoder keeps the state reached after the bytes of
@@ -434,15 +453,17 @@ theorem read_wouldBlock_eh (d : Dec) (pre post : List Ev) (hq : bodyEh d pre = [
 
 /-! ### 2. any other read error (`other` and `interrupted`) -/
 
-/-- (3) Events `pre`, then an error `e` (`other` or `interrupted`), then `post`, from any decoder
+/-- (3) Events `pre`, then an error `e` (`other`, `interrupted`, or — generalised with `Ev.eof` —
+an end-of-input event, which this source reports as `Other`), then `post`, from any decoder
 state: the results of `pre`, then exactly one `IoErr(Other, n)` with `n` = what `reset` returns in
 the decoder state reached after `pre`, then the results of `post` from the reset decoder. -/
-theorem bodyEh_other (d : Dec) (pre post : List Ev) (e : Ev) (he : e = .other ∨ e = .interrupted) :
+theorem bodyEh_other (d : Dec) (pre post : List Ev) (e : Ev)
+    (he : e = .other ∨ e = .interrupted ∨ e = .eof) :
     bodyEh d (pre ++ e :: post) =
       bodyEh d pre ++ [RItem.ioErr .other ((Dec.run d (opsOfEh pre)).1.reset).2] ++
         bodyEh ((Dec.run d (opsOfEh pre)).1.reset).1 post := by
   rw [bodyEh_append, List.append_assoc]
-  rcases he with rfl | rfl <;> rfl
+  rcases he with rfl | rfl | rfl <;> rfl
 
 /-- the decoder the error leaves behind differs from a new decoder in dead fields only (C14) ... -/
 theorem other_leaves_fresh_eh (cap : Option Nat) (pre : List Ev) :
@@ -459,12 +480,12 @@ theorem equiv_same_results_eh {d d' : Dec} (h : Dec.Equiv d d') (evs : List Ev) 
     rw [bodyEh_eq, bodyEh_eq]; exact RF.body_equiv _ h
   exact ⟨hb, by rw [calls_eq_eh_from, calls_eq_eh_from, hb]⟩
 
-/-- New reader; events `pre`, then an error `e` (`other` or `interrupted`), then `post`.  With `rs`
+/-- New reader; events `pre`, then an error `e` (`other`, `interrupted` or `eof`), then `post`.  With `rs`
 = the results `pre` produces and `n = pendingEh cap pre`: the reader returns `rs`, then exactly one
 `IoErr(Other, n)`, then exactly what a new reader returns on `post` — for any number of further
 calls. -/
 theorem other_resets_eh (cap : Option Nat) (pre post : List Ev) (e : Ev)
-    (he : e = .other ∨ e = .interrupted) :
+    (he : e = .other ∨ e = .interrupted ∨ e = .eof) :
     let rs := bodyEh (Dec.fresh cap) pre
     let n := pendingEh cap pre
     (∀ x ∈ rs, x ≠ RItem.none ∧ ∀ m, x ≠ RItem.ioErr .eof m) ∧
@@ -599,6 +620,12 @@ example : nexts (Rdr.new .io none cutEh) 5 =
 
 example : pendingEh none ((frame.take 4).map .byte ++ [.wouldBlock] ++ ((frame.drop 4).take 5).map .byte)
     = 9 := by
+  decide +kernel
+
+/-- an end-of-input event (which a serial line cannot produce) is an error like `other` here:
+`IoErr(Other, 9)`, never `None` or `Eof` -/
+example : nexts (Rdr.new .eh none ((frame.take 9).map .byte ++ [.eof] ++ frame.map .byte ++ [.eof])) 4 =
+    [.ioErr .other 9, .ok [0x12, 0x34, 0x56, 0x78], .ioErr .other 0, .ioErr .wouldBlock 0] := by
   decide +kernel
 
 /-- an `other` error right after a delivered frame discards nothing -/
